@@ -154,7 +154,7 @@ impl Prop for C13 {
 
     fn budget(&self, tier: Tier) -> Budget {
         match tier {
-            Tier::Quick => Budget { runs: 3000, wall_s: 60.0 },
+            Tier::Quick => Budget { runs: 20_000, wall_s: 60.0 },
             Tier::Thorough => Budget { runs: 200_000, wall_s: 540.0 },
         }
     }
@@ -184,6 +184,29 @@ impl Prop for C13 {
             faults = nodesim::gen_faults(&mut rng, n, last + 3000, 4, true);
             faults.extend(nodesim::gen_connect_faults(&mut rng, 2));
         }
+        // requests issued right when a connection dies: the protocol is told about the closure
+        // before the manager is, which opens a window between the two views
+        let mut ops = ops;
+        let mut uid = 1000u64;
+        for f in faults.clone().iter() {
+            let Some(at) = f["at_ms"].as_u64() else { continue };
+            if !matches!(f["kind"].as_str(), Some("reset") | Some("half_close") | Some("kill") | Some("partition")) || !rng.chance(2, 3) {
+                continue;
+            }
+            for _ in 0..rng.range(1, 3) {
+                let node = 1 + rng.below(n as u64);
+                let mut to = 1 + rng.below(n as u64);
+                if to == node {
+                    to = 1 + (node % n as u64);
+                }
+                uid += 1;
+                ops.push(json!({
+                    "at_ms": at + *rng.pick(&[0u64, 0, 1, 2, 5, 30]), "op": "request", "node": node, "to": to, "size": 40, "resp_size": 40,
+                    "dial": true, "try": false, "beh": "answer", "delay_ms": 1, "uid": uid,
+                }));
+            }
+        }
+        ops.sort_by_key(|o| o["at_ms"].as_u64().unwrap_or(0));
         let mut knobs = gen_node_knobs(&mut rng);
         // connection limits on some runs
         if rng.chance(1, 5) {
